@@ -144,6 +144,15 @@ Definition enc_state (s : sstate) :=
   (nr, nc, (cb, map (fun e => (fst (fst e), snd (fst e), qpair (snd e))) cr, du, lb,
             map (fun e => (fst e, qpair (snd e))) no, dn)).
 
+(* a HISTORY of calls on one generator object, every call on its own input matrix (given by its shape):
+   the self-description after each call.  No state other than dataset_info may carry over between calls. *)
+Fixpoint history_trace (i : info) (calls : list (Z * Z * op)) : list info :=
+  match calls with
+  | [] => []
+  | (nr, nc, o) :: r => let i' := snd (step false (nr, nc, i) o) in i' :: history_trace i' r
+  end.
+Definition enc_info (i : info) := snd (enc_state (0, 0, i)).
+
 (* every column index the self-description lists as added *)
 Definition listed (i : info) : list Z :=
   let '(cb, cr, du, _, _, _) := i in
